@@ -110,4 +110,10 @@ var props = map[string]propSpec{
 		"App Engine datastore/memcache/users are the in-memory fake (package vae: string keys, =,<,> filters, key-ordered results, 1 MB entity limit); no real service exists offline",
 		"backend sets: every single backend and every ordered pair over 3 owners x 10 prefix lists x 5 last-seen ages (never, 0, 4m59s, 5m, 5m1s), plus a sample of triples; 3 users x 5 paths per set; each set is also registered in reverse order; ages are produced on the virtual clock through the real store API (agent polls)",
 	}},
+	"C17": {Level: "model_checking", Harnesses: []harnessSpec{
+		{Name: "appw", Quick: 120, Thorough: 900, Args: []string{"-prop", "C17"}},
+	}, Assume: []string{
+		"App Engine services are the in-memory fake (vae); caller identity, administrator flag and module are request attributes set by the harness, as App Engine's front end would",
+		"universe: two backends (one owned by user1 at /, one shared at /s), their two agents, two end users, an administrator; one client request in flight per backend; every agent call over endpoint x caller identity x named backend x request id (own, other backend's, unknown, none), alone and after each of four legitimate calls; administrator re-registering or deleting a backend between two calls of its former agent; the admin API under six identities",
+	}},
 }
